@@ -155,15 +155,27 @@ def _mm(key='str', **cfg):
     from textx import metamodel_from_str
     k2 = (key, tuple(sorted(cfg.items())))
     if k2 not in _MM:
+        cfg = dict(cfg)
+        history = cfg.pop('_history', None)
         g = {'str': "Model: vals+=STRING;", 'int': "Model: vals+=INT[','];",
              'num': "Model: vals+=NUMBER[','];", 'float': "Model: vals+=FLOAT[','];",
              'sfloat': "Model: vals+=STRICTFLOAT[','];", 'bool': "Model: vals+=BOOL[','];"}[key]
-        _MM[k2] = metamodel_from_str(g, **cfg)
+        mm = metamodel_from_str(g, **cfg)
+        custom = {b: (lambda v: ('custom', v)) for b in ('INT', 'FLOAT', 'STRICTFLOAT', 'BOOL', 'STRING', 'NUMBER')}
+        if history == 'processors-replaced':
+            # "registration of new object processors will replace previous": custom base-type processors
+            # that were registered and then replaced by an empty registration must be gone
+            mm.register_obj_processors(dict(custom))
+            mm.register_obj_processors({})
+        elif history == 'other-metamodel-customised':
+            metamodel_from_str(g, **cfg).register_obj_processors(dict(custom))
+        _MM[k2] = mm
     return _MM[k2]
 
 
 # metamodel configurations under which the base types must convert alike
-MM_CONFIGS = [{}, {'use_regexp_group': True}, {'ignore_case': True, 'autokwd': True}, {'memoization': True, 'skipws': True}]
+MM_CONFIGS = [{}, {'use_regexp_group': True}, {'ignore_case': True, 'autokwd': True}, {'memoization': True, 'skipws': True},
+              {'_history': 'processors-replaced'}, {'_history': 'other-metamodel-customised'}]
 
 
 def replay_string(s, q, cont):
